@@ -256,7 +256,8 @@ Definition upd_fail (c : ccfg) (u : c15upd) : option string :=
       let is_ := in_related_map_spec c (upd_parent u) rules (upd_new u) in
       if (was || is_) && negb (upd_woken u)
       then Some ("related-object-change-does-not-wake-parent:" ++
-                 (if was && is_ then "update-stays-selected"
+                 (if String.prefix "delete" (upd_kind u) then upd_kind u      (* delete | delete-tombstone *)
+                  else if was && is_ then "update-stays-selected"
                   else if was then "update-leaves-selection" else "update-enters-selection"))%string
       else None
   | None => None
